@@ -236,6 +236,11 @@ def units(tier):
     wrap("C02.add_mix.mixing_loop", unit_add_mix_loop)
     wrap("C02.NameDouble.add_extensive", unit_add_extensive)
     wrap("C02.System.totalize", unit_totalize)
+    from props import c02_save as SV
+    wrap("C02.xsolution_save.saves_what_add_solution_reads", SV.unit_xsolution_save)
+    wrap("C02.xsurface_save.charge_saved_for_every_type_add_surface_reads", SV.unit_xsurface_save)
+    from props import c02_reset as RS
+    wrap("C02.reset.mineral_transfer_is_conservative", RS.unit_reset_transfer)
     for fname, lo in (("add_ss_assemblage", 1), ("add_pp_assemblage", 0)):
         def g(fname=fname, lo=lo):
             r = unit_formula_workspace(fname, lo)
